@@ -228,7 +228,7 @@ Definition step_thread (c : wcfg) (s : wst) (t : nat) (p : pc) : res :=
         | _ => Next (set_pc (set_q s q) t (CWrite rem))
         end)
   | CCloseQ false =>
-      Next (set_pc (set_noflush (set_q s (close (wq s))) (noflush s || negb (qclosed (wq s)))) t CUnlock)
+      Next (set_pc (set_noflush (set_q s (close (wq s))) true) t CUnlock)
   | CWrite _ => Blocked
   | CUnlock => Next (set_pc (set_owner (set_closeCh s) None) t CDone)
   | CDone => Blocked
@@ -306,11 +306,12 @@ Definition delivered (s : wst) : list item :=
 Definition write_failed (s : wst) : bool := existsb snd (wlog s).
 
 (* items removed from the queue by the holder of writer.mu and not yet handed to the transport *)
+Definition items_of (p : pc) : list item :=
+  match p with GWrite is | FWrite is | CWrite is => is | _ => [] end.
 Definition inflight (s : wst) : list item :=
   match owner s with
-  | Some t => match getpc (thr s) t with
-              | Some (GWrite is) | Some (FWrite is) | Some (CWrite is) => is
-              | _ => []
-              end
+  | Some t => match getpc (thr s) t with Some p => items_of p | None => [] end
   | None => []
   end.
+Definition closing (p : pc) : bool :=
+  match p with CCloseQ _ | CWrite _ => true | _ => false end.
